@@ -397,6 +397,9 @@ func (r *Run) Finish() {
 	}
 	r.Cov["known_findings_observed"] = len(knownSeen)
 	r.Cov["violations_distinct"] = len(uniq)
+	if r.Assume == nil {
+		r.Assume = []string{}
+	}
 	ev := map[string]any{
 		"property_id": r.ID, "tier": r.Tier, "seed": r.Seed, "level": r.Level,
 		"coverage": r.Cov, "assumptions": r.Assume,
